@@ -79,6 +79,12 @@ def main(tier, seed, replay=None):
             dist[k] = dist.get(k, 0) + v
         mode, flags = pick_flags(rnd)
         cases.append({"i": i, "spec": s, "mode": mode, "flags": flags, "seed": seed * 1000 + i})
+    # deterministic feature matrix: every body media category x required/optional, all parameter locations and styles,
+    # exact/range/default responses with json/text/binary payloads — in each module mode
+    fm = feature_matrix_spec()
+    for mode in ("types", "client-mod", "server-mod"):
+        for flags in ([], ["--enable-builders", "--all-headers"], ["-C", "crate", "--enum-mode", "relaxed", "--no-helpers"]):
+            cases.append({"i": len(cases), "spec": fm, "mode": mode, "flags": flags, "seed": -1})
     if replay:
         r = json.load(open(replay))
         cases = [{"i": 0, "spec": r["spec"], "mode": r["mode"], "flags": r["flags"], "seed": r.get("seed", 0)}]
@@ -104,9 +110,9 @@ def main(tier, seed, replay=None):
     for ci, diags in failed.items():
         c = by_i[ci]
         codes = sorted({d_["code"] or "?" for d_ in diags})
-        key = classify(diags, c)
-        if key and key in kf:
-            known_hits.add(key)
+        keys = classify(diags, c)
+        if keys and all(k in kf for k in keys):
+            known_hits |= keys
         else:
             viol.append((c, f"rustc rejects the module emitted for seed {c['seed']} mode {c['mode']} flags {c['flags']}: {codes} {diags[0]['message'][:200]}"))
     if not ok and err:
@@ -152,21 +158,54 @@ def main(tier, seed, replay=None):
 
 
 def classify(diags, c):
-    """map rustc diagnostics of one module to a known-finding key (narrow patterns), else None"""
-    txt = " ".join((d_["code"] or "") + " " + d_["message"] + " " + d_["rendered"] for d_ in diags)
-    codes = {d_["code"] for d_ in diags}
-    if c["mode"].endswith("-mod") and "file" in c["flags"] and codes <= {"E0412", "E0422", "E0425", "E0433", "E0603", "E0277", "E0599", "E0282", "E0432"}:
-        return "file-visibility-in-module-modes"
-    has_bin_body = any("requestBody" in op and any(ct.startswith(("application/octet-stream", "image/", "audio/", "video/", "application/pdf")) for ct in op["requestBody"].get("content", {}))
-                       for item in c["spec"].get("paths", {}).values() for op in item.values() if isinstance(op, dict))
-    if c["mode"] == "server-mod" and has_bin_body and codes == {"E0308"} and all("Bytes" in d_["rendered"] and "server.rs" in d_["rendered"] for d_ in diags):
-        return "server-binary-body-type-mismatch"
-    ops = [op for item in c["spec"].get("paths", {}).values() for op in item.values() if isinstance(op, dict)]
+    """explain every rustc diagnostic of one module by a known-finding key (narrow patterns); returns the set of keys,
+    or None if some diagnostic is not explained"""
+    ops = [op for item in c["spec"].get("paths", {}).values() for op in item.values() if isinstance(op, dict) and "responses" in op]
+    BIN = ("application/octet-stream", "image/", "audio/", "video/", "application/pdf")
+    has_bin_body = any("requestBody" in op and any(ct.startswith(BIN) for ct in op["requestBody"].get("content", {})) for op in ops)
     opt_raw_body = any("requestBody" in op and not op["requestBody"].get("required", False)
                        and any(not (ct.endswith("json") or ct.endswith("x-www-form-urlencoded") or ct.startswith("multipart")) for ct in op["requestBody"].get("content", {}))
                        for op in ops)
-    if c["mode"] == "server-mod" and opt_raw_body and all(d_["code"] == "E0277" and "Handler<" in d_["message"] for d_ in diags):
-        return "server-optional-raw-body-extractor"
-    if all(d_["code"] == "E0277" and re.search(r"the trait bound `[\w:]+: serde::(Serialize|Deserialize<'de>)` is not satisfied", d_["message"]) and "required for `HashMap<String, " in d_["rendered"] for d_ in diags):
-        return "serde-usage-misses-map-values"
-    return None
+    keys = set()
+    for d_ in diags:
+        code, msg, ren = d_["code"], d_["message"], d_["rendered"]
+        if c["mode"].endswith("-mod") and "file" in c["flags"] and code in ("E0412", "E0422", "E0425", "E0433", "E0603", "E0277", "E0599", "E0282", "E0432"):
+            keys.add("file-visibility-in-module-modes")
+        elif c["mode"] == "server-mod" and has_bin_body and code == "E0308" and "Bytes" in ren and "server.rs" in ren:
+            keys.add("server-binary-body-type-mismatch")
+        elif c["mode"] == "server-mod" and opt_raw_body and code == "E0277" and "Handler<" in msg:
+            keys.add("server-optional-raw-body-extractor")
+        elif code == "E0277" and re.search(r"the trait bound `[\w:]+: serde::(Serialize|Deserialize<'de>)` is not satisfied", msg) and "required for `HashMap<String, " in ren:
+            keys.add("serde-usage-misses-map-values")
+        else:
+            return None
+    return keys
+
+
+def feature_matrix_spec():
+    paths = {}
+    bodies = [("json", "application/json", {"$ref": "#/components/schemas/Item"}), ("form", "application/x-www-form-urlencoded", {"$ref": "#/components/schemas/Item"}),
+              ("text", "text/plain", {"type": "string"}), ("bin", "application/octet-stream", {"type": "string", "format": "binary"}),
+              ("multi", "multipart/form-data", {"type": "object", "properties": {"file": {"type": "string", "format": "binary"}, "note": {"type": "string"}}})]
+    for name, ct, sch in bodies:
+        for req in (True, False):
+            op = {"operationId": f"send_{name}_{'req' if req else 'opt'}",
+                  "requestBody": {"required": req, "content": {ct: {"schema": sch}}},
+                  "responses": {"200": {"description": "ok", "content": {"application/json": {"schema": {"$ref": "#/components/schemas/Item"}}}},
+                                "4XX": {"description": "bad", "content": {"text/plain": {"schema": {"type": "string"}}}},
+                                "default": {"description": "d"}}}
+            paths[f"/b/{name}/{'r' if req else 'o'}"] = {"post": op}
+    paths["/p/{id}/x{n}y"] = {"parameters": [{"name": "id", "in": "path", "required": True, "schema": {"type": "string"}}],
+                              "get": {"operationId": "with_params", "parameters": [
+                                  {"name": "n", "in": "path", "required": True, "schema": {"type": "integer"}},
+                                  {"name": "q", "in": "query", "schema": {"type": "string"}},
+                                  {"name": "tags", "in": "query", "explode": False, "schema": {"type": "array", "items": {"type": "string"}}},
+                                  {"name": "sort", "in": "query", "schema": {"type": "string", "enum": ["asc", "desc"]}},
+                                  {"name": "X-Trace", "in": "header", "required": True, "schema": {"type": "string"}},
+                                  {"name": "X-Ids", "in": "header", "schema": {"type": "array", "items": {"type": "integer"}}}],
+                                  "responses": {"200": {"description": "ok", "content": {"application/octet-stream": {"schema": {"type": "string", "format": "binary"}}}},
+                                                "404": {"description": "nf"}}}}
+    return {"openapi": "3.1.0", "info": {"title": "Matrix", "version": "1"}, "paths": paths,
+            "components": {"schemas": {"Item": {"type": "object", "required": ["id"], "properties": {"id": {"type": "integer"}, "name": {"type": "string"},
+                                                                                             "sub": {"$ref": "#/components/schemas/Sub"}}},
+                                       "Sub": {"type": "object", "properties": {"k": {"type": "string", "enum": ["a", "b"]}}}}}}
